@@ -264,8 +264,8 @@ def merge_gosym(rep, res, label):
     c['transitions'] = c.get('transitions', 0) + res.get('solver_queries', 0)
     c.setdefault('samples', [])
     for s in (res.get('samples') or [])[:3]:
-        c['samples'].append({'harness': label, 'decisions': s.get('trace', [])[:40],
-                             'inputs': [(i['name'], i['value']) for i in s.get('inputs', [])][:24], 'end': s.get('end')})
+        c['samples'].append({'harness': label, 'decisions': (s.get('trace') or [])[:40],
+                             'inputs': [(i['name'], i['value']) for i in (s.get('inputs') or [])][:24], 'end': s.get('end')})
     c['solver_seconds'] = round(c.get('solver_seconds', 0) + res.get('solver_seconds', 0), 2)
     c['instructions_interpreted'] = c.get('instructions_interpreted', 0) + res.get('instructions_interpreted', 0)
     fs = set(c.get('functions_encoded', []))
